@@ -63,7 +63,7 @@ Definition pin_fingerprints : list (string * string) := [
   ("Image.grid"%string, "28f404605540e381a262"%string);
   ("Image.grid_"%string, "8587409aef75f4a01c65"%string);
   ("Image.narrow"%string, "2a5674ce208564204bc6"%string);
-  ("FlowFields.__init__"%string, "bbfcf0b0bd677e15f849"%string);
+  ("FlowFields.__init__"%string, "8e3c6984c4974e57b400"%string);
   ("FlowFields._make_instance"%string, "54709c93892d651a493c"%string);
   ("FlowFields._make_subitem"%string, "09adb100636e5a6b69b0"%string);
   ("FlowFields._torch_function_axes"%string, "dedf5e8a8a1476b3eb2c"%string);
